@@ -2,7 +2,7 @@ SPECIFICATION Spec
 CONSTANTS
   MaxLeaves = 40
   Heights = {0, 1, 2, 3}
-  ExhLeaves = 0
+  ExhLeaves = 6
   FromFile = TRUE
   EmitOn = TRUE
 INVARIANTS Inv
